@@ -85,6 +85,9 @@ def illegal_effect(P, S, a, S2, ev, agent):
     i = 0 if agent is None else int(agent)
     new, grid, ok, cleaned = _ref(P, S, a)
     P.hit("illegal_terminates")
+    ai = int(np.asarray(a).reshape(-1)[i])
+    tr, tc = _locs(S)[i][0] + MOVES[ai][0], _locs(S)[i][1] + MOVES[ai][1]
+    P.hit("illegal_into_wall" if (0 <= tr < P.params["rows"] and 0 <= tc < P.params["cols"]) else "illegal_out_of_grid")
     if not ev.last:
         out.append("illegal_terminates: an illegal component did not end the episode")
     if _locs(S2)[i] != _locs(S)[i]:
@@ -149,6 +152,8 @@ def physical(P, S_prev, a, S):
             out.append(f"agent_not_on_wall: agent {i} at {(r, c)} stands on a wall")
         elif int(grid[r, c]) != CLEAN:
             out.append(f"agent_tile_clean: agent {i} at {(r, c)} stands on a dirty tile")
+        elif r == R - 1 or c == C - 1:
+            P.hit("agent_in_last_row" if r == R - 1 else "agent_in_last_col")
     if S_prev is not None and S_prev["grid"].shape == grid.shape:
         g0 = S_prev["grid"]
         P.hit("grid_monotone")
